@@ -319,13 +319,18 @@ def compare(case, impl, model):
                     return sorted((k_, idx if k_ == 1 else 0, bytes(b)) for k_, idx, b in l if k_ in (0, 1, 3))
                 pend = canon(ent[4])
                 cands = [canon(cd) for cd in m_cands]
-                ok = pend in cands
-                if not ok and roller[0] == 1 and len(roller) > 3 and roller[3]:
-                    # gzip: the archive is written completely before the temp file is removed
-                    temps = [e for e in pend if e[0] == 3]
-                    rest_ = [e for e in pend if e[0] != 3]
-                    if len(temps) == 1 and rest_ == cands[-1] and (1, base, temps[0][2]) in rest_:
-                        ok = True
+                exact = pend in cands
+                # The observation is a scan of a directory that the rotation thread may be changing: each
+                # file is read atomically, the directory as a whole is not (vp check 8: archive 2 read, then
+                # renamed to 3, then 3 read - one record seen twice).  So the judgement is per file: what was
+                # read under each name is what SOME state of the model holds under that name.
+                def as_map(l):
+                    return {(k_, idx): b for k_, idx, b in l}
+                pm, cms = as_map(pend), [as_map(cd) for cd in cands]
+                ok = all(any(cm.get(nm) == pm.get(nm) for cm in cms)
+                         for nm in set(pm).union(*[set(cm) for cm in cms]))
+                if exact:
+                    STATS["pending_exactly_a_model_state"] = STATS.get("pending_exactly_a_model_state", 0) + 1
                 STATS["pending_vs_bg_model"] = STATS.get("pending_vs_bg_model", 0) + 1
                 if pend != cands[-1]:
                     STATS["pending_midflight_states"] = STATS.get("pending_midflight_states", 0) + 1
